@@ -338,7 +338,7 @@ class Ex:
             if not _has_quantifier(c):
                 s.add(c)
         s.add(cond)
-        return s.check() != z3.unsat
+        return guarded_check(s, self.FEAS_TIMEOUT_MS * 5) != z3.unsat
 
     def decide(self, cond, label=""):
         """Branch on cond (z3 Bool) or, with cond None, on a free choice. Returns the branch taken."""
@@ -409,6 +409,19 @@ class Ex:
 
 
 # ----------------------------------------------------------------------------- solving
+
+
+def guarded_check(s, budget_ms):
+    """s.check() with a watchdog: z3 does not always honour its own timeout (array / quantifier tactics); the timer interrupts the context"""
+    timer = threading.Timer(budget_ms / 1000.0 + 2.0, lambda: z3.main_ctx().interrupt())
+    timer.daemon = True
+    timer.start()
+    try:
+        return s.check()
+    except z3.Z3Exception:
+        return z3.unknown
+    finally:
+        timer.cancel()
 
 
 def solve(pc, goal, timeout_ms=10000, seed=0):
@@ -599,7 +612,7 @@ def pc_status(pc, timeout_ms=1500):
             nq += 1
         else:
             s.add(c)
-    r = s.check()
+    r = guarded_check(s, timeout_ms * 4)
     if r == z3.unsat:
         return "unsat"
     if r == z3.sat and nq == 0:
@@ -611,4 +624,4 @@ def full_pc_unsat(pc, timeout_ms=700):
     s = z3.Solver()
     s.set(timeout=timeout_ms)
     s.add(*pc)
-    return s.check() == z3.unsat
+    return guarded_check(s, timeout_ms) == z3.unsat
